@@ -425,6 +425,22 @@ fn format(opt: opt::Opt) -> Result<i32> {
     let walker = walker_builder.build();
     let mut seen_files = HashSet::new();
 
+    // An error which ends the run (a configuration or ignore file that cannot be read). It is returned once the files
+    // already handed to the pool have been dealt with: the process exits as soon as this function returns,
+    // which must not happen while a worker is in the middle of writing a file
+    let mut fatal_error = None;
+    macro_rules! try_or_stop {
+        ($result:expr) => {
+            match $result {
+                Ok(value) => value,
+                Err(error) => {
+                    fatal_error = Some(error);
+                    break;
+                }
+            }
+        };
+    }
+
     for result in walker {
         match result {
             Ok(entry) => {
@@ -435,12 +451,15 @@ fn format(opt: opt::Opt) -> Result<i32> {
                     let should_skip_format = match &opt.stdin_filepath {
                         Some(path) => {
                             opt.respect_ignores
-                                && path_is_stylua_ignored(path, opt.search_parent_directories)?
+                                && try_or_stop!(path_is_stylua_ignored(
+                                    path,
+                                    opt.search_parent_directories
+                                ))
                         }
                         None => false,
                     };
 
-                    let config = config_resolver.load_configuration_for_stdin()?;
+                    let config = try_or_stop!(config_resolver.load_configuration_for_stdin());
 
                     pool.execute(move || {
                         let mut buf = String::new();
@@ -500,12 +519,15 @@ fn format(opt: opt::Opt) -> Result<i32> {
                         // we should check .styluaignore
                         if is_explicitly_provided(opt.as_ref(), &path)
                             && should_respect_ignores(opt.as_ref(), &path)
-                            && path_is_stylua_ignored(&path, opt.search_parent_directories)?
+                            && try_or_stop!(path_is_stylua_ignored(
+                                &path,
+                                opt.search_parent_directories
+                            ))
                         {
                             continue;
                         }
 
-                        let config = config_resolver.load_configuration(&path)?;
+                        let config = try_or_stop!(config_resolver.load_configuration(&path));
 
                         let tx = tx.clone();
                         pool.execute(move || {
@@ -542,6 +564,10 @@ fn format(opt: opt::Opt) -> Result<i32> {
 
     drop(tx);
     pool.join();
+
+    if let Some(error) = fatal_error {
+        return Err(error);
+    }
 
     // Output summary
 
